@@ -636,7 +636,13 @@ pub fn run(run: &mut Run) -> Result<(), String> {
                 plan.raws.push((Box::new(DoubleCheck { kings: vec![4, 27], own_kinds: vec![Kind::P, Kind::N] }), b(0, 0)));
                 plan.raws.push((Box::new(TwoLines { enemy_kings: vec![35] }), b(1, 0)));
                 plan.raws.push((Box::new(EpUniverse::own_sliders()), b(1, 0)));
+                plan.raws.push((Box::new(CheckPin { kings: vec![4, 27] }), b(0, 0)));
+                plan.raws.push((Box::new(CastleBox { max_items: 3 }), b(0, 0)));
+                plan.raws.push((Box::new(EpExposure), b(0, 0)));
             } else {
+                plan.raws.push((Box::new(EpExposure), b(1, 0)));
+                plan.raws.push((Box::new(CheckPin { kings: vec![4, 27, 0, 60] }), b(0, 0)));
+                plan.raws.push((Box::new(CastleBox { max_items: 4 }), b(1, 0)));
                 plan.lines = Some(b(3, 2));
                 plan.raws.push((Box::new(DoubleCheck { kings: vec![4, 27, 0, 60], own_kinds: NONKING.to_vec() }), b(0, 0)));
                 plan.raws.push((Box::new(TwoLines { enemy_kings: vec![35, 60, 63] }), b(1, 0)));
@@ -694,8 +700,14 @@ pub fn run(run: &mut Run) -> Result<(), String> {
                 plan.raws.push((Box::new(Checks { n: 2 }), b(0, 0)));
                 plan.raws.push((Box::new(EpUniverse::small()), b(0, 0)));
                 plan.raws.push((Box::new(DoubleCheck { kings: vec![4], own_kinds: vec![Kind::P] }), b(0, 0)));
+                plan.raws.push((Box::new(CheckPin { kings: vec![4, 27] }), b(0, 0)));
+                plan.raws.push((Box::new(CastleBox { max_items: 2 }), b(0, 0)));
+                plan.raws.push((Box::new(EpExposure), b(0, 0)));
                 plan.lines = Some(b(1, 1));
             } else {
+                plan.raws.push((Box::new(EpExposure), b(0, 0)));
+                plan.raws.push((Box::new(CheckPin { kings: vec![4, 27, 0, 60] }), b(0, 0)));
+                plan.raws.push((Box::new(CastleBox { max_items: 3 }), b(0, 0)));
                 plan.lines = Some(b(2, 1));
                 plan.raws.push((Box::new(DoubleCheck { kings: vec![4, 27, 0, 60], own_kinds: NONKING.to_vec() }), b(0, 0)));
                 plan.raws.push((Box::new(TwoLines { enemy_kings: vec![35] }), b(1, 0)));
@@ -719,8 +731,13 @@ pub fn run(run: &mut Run) -> Result<(), String> {
                 plan.raws.push((Box::new(Castle { extra: 0 }), b(0, 0)));
                 plan.raws.push((Box::new(Checks { n: 1 }), b(0, 0)));
                 plan.raws.push((Box::new(DoubleCheck { kings: vec![4], own_kinds: vec![Kind::P] }), b(0, 0)));
+                plan.raws.push((Box::new(CheckPin { kings: vec![27] }), b(0, 0)));
+                plan.raws.push((Box::new(EpExposure), b(0, 0)));
                 plan.lines = Some(b(1, 0));
             } else {
+                plan.raws.push((Box::new(EpExposure), b(0, 0)));
+                plan.raws.push((Box::new(CheckPin { kings: vec![4, 27] }), b(0, 0)));
+                plan.raws.push((Box::new(CastleBox { max_items: 2 }), b(0, 0)));
                 plan.lines = Some(b(2, 1));
                 plan.raws.push((Box::new(DoubleCheck { kings: vec![4, 27], own_kinds: vec![Kind::P, Kind::N, Kind::R] }), b(0, 0)));
                 plan.start = Some(b(3, 1));
